@@ -19,9 +19,9 @@ fi
 rc=0
 for id in "$@"; do
   VERIF_REPO="$WT" VERIF_OUT="$OUT/$id" "$V/run.sh" "$id" "${TIER:-quick}" >"$OUT/$id.log" 2>&1; code=$?
-  nv=$(grep -c '^VIOLATION' "$OUT/$id.log")
-  echo "check $id: exit=$code violations=$nv  $(grep -m1 -A1 '^VIOLATION' "$OUT/$id.log" | tail -1 | cut -c1-220)"
-  grep -m3 '^INCONCLUSIVE' "$OUT/$id.log" | cut -c1-300
+  nv=$(grep -a -c '^VIOLATION' "$OUT/$id.log")
+  echo "check $id: exit=$code violations=$nv  $(grep -a -m1 -A1 '^VIOLATION' "$OUT/$id.log" | tail -1 | cut -c1-220)"
+  grep -a -m3 '^INCONCLUSIVE' "$OUT/$id.log" | cut -c1-300
   [ "$code" = 1 ] && rc=1
 done
 [ $rc = 1 ] && echo "RESULT caught" || echo "RESULT missed"
